@@ -50,6 +50,11 @@ class ScriptedRng:
         self.values = []
         self.ranges = []
         self.fallback = random.Random(fallback_seed)
+        # looks enough like numpy's Generator.bit_generator for code that copies generator state around
+        self.bit_generator = type('ScriptedBitGenerator', (), {})()
+        ScriptedRng.instances = getattr(ScriptedRng, 'instances', 0) + 1
+        self.bit_generator.state = {'bit_generator': 'Scripted', 'state': {'state': fallback_seed, 'inc': 1},
+                                    'has_uint32': ScriptedRng.instances % 2, 'uinteger': 1000 + ScriptedRng.instances}
 
     def _next(self, kind):
         self.ncalls += 1
